@@ -56,7 +56,7 @@ def run(tape, prop, tier):
     later_at = sorted(tape.int(2, 40) for _ in range(n_later))
     kinds = list(FAULTS_COMMON)
     if flavour == "binance":
-        kinds += ["key_expired", "key_expired", "listen_key_fail", "keepalive_fail"]
+        kinds += ["key_expired", "key_expired", "listen_key_fail", "keepalive_fail", "keepalive_reset"]
     if flavour.startswith("bitstamp"):
         kinds += ["reconnect_request", "reconnect_request"]
     if flavour in ("bitstamp_priv", "bitstamp_exchange"):
@@ -106,7 +106,7 @@ def run(tape, prop, tier):
         import basana as bs
         from basana.core import websockets as core_ws, event, dt as bdt
         rng = random.Random(net_seed)
-        flags = dict(sub_error=0, slow=0.0, key_fail=0, ka_fail=0, token_fail=0)
+        flags = dict(sub_error=0, slow=0.0, key_fail=0, ka_fail=0, token_fail=0, ka_reset=0)
         msg_id = [0]
 
         # ------------------------------------------------------------ the peer
@@ -140,6 +140,13 @@ def run(tape, prop, tier):
                     return web.json_response({"listenKey": k})
                 if request.method == "PUT":
                     L["puts"].append((loop.time(), kind, body))
+                    if flags["ka_reset"] > 0:
+                        # transport-level failure of the keep-alive: the REST connection dies instead of answering
+                        # (twice in a row, since aiohttp re-sends an idempotent request once on a reused connection)
+                        flags["ka_reset"] -= 1
+                        res.probes["keepalive_connection_reset"] += 1
+                        request.transport.conn.reset()
+                        return web.Response(status=500)
                     if flags["ka_fail"] > 0:
                         flags["ka_fail"] -= 1
                         return web.json_response({"code": -1125, "msg": "This listenKey does not exist."}, status=400)
@@ -461,6 +468,8 @@ def run(tape, prop, tier):
                     flags["key_fail"] += 2
                 elif k == "keepalive_fail":
                     flags["ka_fail"] += 1
+                elif k == "keepalive_reset":
+                    flags["ka_reset"] += 2
                 elif k == "token_fail":
                     flags["token_fail"] += 1
                 elif c is None:
